@@ -294,7 +294,30 @@ def template_cases():
     return n, fails
 
 
+def expr_text_search():
+    """{{#expr: ...}} through the real expander: the printed result denotes the value (relative error <= 1e-12), also for
+    magnitudes that are printed in E notation"""
+    from mwlib.parser.expander import Expander
+    exprs = ["7^20", "2^70", "0.001*0.0123", "1/30000", "1/7/100000", "123456789*987654321*1000", "3*10^20", "1.5*10^-7", "99999999999999999*3",
+             "2^10", "1/4", "10^15", "12345.678*1000", "0.0001", "0.00012345", "-7^21", "-1/30000"]
+    n = 0
+    for e in exprs:
+        n += 1
+        try:
+            want = eval(e.replace("^", "**"))        # noqa: S307 - arithmetic literals of this file only
+            out = Expander("{{#expr: " + e + "}}", pagename="P", wikidb=TDB({})).expandTemplates().strip()
+            got = float(out)
+        except Exception as ex:  # noqa: BLE001
+            return n, {"detail": f"{{{{#expr: {e}}}}}: {type(ex).__name__}: {ex}", "witness": {"expr": e}, "class": "expr-text:raise"}
+        if abs(got - want) > 1e-12 * max(abs(want), 1e-300):
+            return n, {"detail": f"{{{{#expr: {e}}}}} prints {out!r} = {got!r}, the value is {want!r}", "witness": {"expr": e, "printed": out, "value": want}, "class": "expr-text:value"}
+    return n, None
+
+
 def bounded(chk):
+    n4, f4 = expr_text_search()
+    chk.bounded_result("expr_printed_results_denote_the_value", n4, n4, True,
+                       "17 expressions with results inside and outside [1e-4, 1e16) through {{#expr:}}: float(printed text) equals the value up to 1e-12 relative", [f4] if f4 else [])
     n, f = expr_search(chk.tier, chk.seed)
     chk.bounded_result("expr_trees", n, n, False,
                        "all depth-1 trees over 4 leaves x (12 binary + 6 unary operators), sampled depth-2 compositions and seeded random trees to depth 3 (quick) / 4 (thorough), each serialised with minimal and with full parentheses; reference = operator semantics in Python",
